@@ -173,7 +173,7 @@ def run_check(check, tier, seed, replay=None):
         for tp in traces:
             groups.setdefault(trace_origin[tp].trace or (check.trace_module, check.trace_cfg), []).append(tp)
         for (tmod, tcfg), tps in groups.items():
-            vres += validate_traces(tmod, tcfg, tps, timeout=1500 if tier == "thorough" else 900)
+            vres += validate_traces(tmod, tcfg, tps, timeout=3600 if tier == "thorough" else 900)
         log("  validated traces (%.0fs)" % (time.time() - t0))
 
         # 4. collect the model results
